@@ -1,5 +1,5 @@
 """C12 - defaults, user-defined status and reset behave as a consistent state machine."""
-from .. import gen, history, model
+from .. import gen, history, model, spec
 from ..model import Unknown
 from .c05 import env_of
 
@@ -16,7 +16,7 @@ RULE = ("schemas with constant, callable and absent defaults on every field fami
         "mutations: after each step the values AND the user-defined flag of every path (all depths, list items) are "
         "compared with a prediction computed from the state observed before the step; non-trivial = >= 1 accepted "
         "assignment, >= 1 rejected one and >= 1 reset judged; distinct = distinct (schema, history)")
-REQUIRED = ("forwarding_setter_assignments_judged:partly-rejected", "equal_items_with_other_status_judged", "dynamic_sections_reset_after_runtime_fields", "callable_object_defaults", "dotted_status_queries", "schemas_with_unnormalised_defaults", "fresh_default_checks", "callable_default_checks", "flag_maps_compared", "accepted_assignments_judged",
+REQUIRED = ("schemas_with_keys_named_like_config_methods", "forwarding_setter_assignments_judged:partly-rejected", "equal_items_with_other_status_judged", "dynamic_sections_reset_after_runtime_fields", "callable_object_defaults", "dotted_status_queries", "schemas_with_unnormalised_defaults", "fresh_default_checks", "callable_default_checks", "flag_maps_compared", "accepted_assignments_judged",
             "rejected_ops_judged", "resets_judged", "loads_judged")
 ASSUMPTIONS = ["in-place mutation of a default list/dict does not make it user-defined (the statement says 'assigned or "
                "loaded')", "loads that fail are not judged (their partial effect is unspecified)"]
@@ -59,6 +59,17 @@ def generate(rng, ctx):
     thorough = ctx.tier == "thorough"
     schema = gen.gen_schema(rng, depth=rng.choice([1, 2, 3] if thorough else [1, 2, 2]), width=rng.choice([3, 4, 5]),
                             defaults=0.8, dynamic=0.25)
+    # sections and fields may be named like methods of the Config class (reachable by item / dotted path only)
+    if rng.random() < 0.3:
+        names = ["save", "load", "validate", "dumps", "loads", "to_tree", "load_tree"]
+        nodes = [nd for p, nd in history.all_paths(schema) if "[]" not in p]
+        owners = {id(nd): (spec.node_at(schema, spec.split_parent(p)[0]) if "." in p else schema) for p, nd in history.all_paths(schema) if "[]" not in p}
+        for nd in rng.sample(nodes, min(len(nodes), 2)):
+            taken = {ch["key"] for ch in model.fields_of(owners[id(nd)])["fields"]}
+            free = [n for n in names if n not in taken]
+            if free:
+                nd["key"] = rng.choice(free)
+        schema["method_like_names"] = True
     env = gen.GEN_ENV
     raw = _add_raw_defaults(rng, schema, env)
     _add_callables(rng, schema)
@@ -198,6 +209,8 @@ def run(case, ctx, res):
             return
     if case.get("raw_defaults"):
         res.count("schemas_with_unnormalised_defaults")
+    if case["schema"].get("method_like_names"):
+        res.count("schemas_with_keys_named_like_config_methods")
     # (2) the history
     acc = rej = resets = 0
     for idx, op in enumerate(case["ops"]):
